@@ -35,8 +35,10 @@ theorem cog10_leaves : Cog10.okLeaves = [0, 1, 2] := rfl
 noncomputable def cog10_alpha (p : Cog10.P) : ℝ := p.beta + 4 - 1 / (p.geometry - 1)
 
 /-- the traced path conditions are the range test of the documented α -/
-theorem cog10_c0_iff (p : Cog10.P) (r t : ℝ) : Cog10.c0 p r t ↔ cog10_alpha p < -2 := Iff.rfl
-theorem cog10_c1_iff (p : Cog10.P) (r t : ℝ) : Cog10.c1 p r t ↔ -1 < cog10_alpha p := Iff.rfl
+theorem cog10_c0_iff (p : Cog10.P) (r t : ℝ) : Cog10.c0 p r t ↔ cog10_alpha p < -2 := by
+  unfold cog10_alpha; simp only [epv_cond] <;> epv_arith_iff
+theorem cog10_c1_iff (p : Cog10.P) (r t : ℝ) : Cog10.c1 p r t ↔ -1 < cog10_alpha p := by
+  unfold cog10_alpha; simp only [epv_cond] <;> epv_arith_iff
 
 theorem cog10_mass_L0 (p : Cog10.P) (r t : ℝ) (hr : 0 < r) :
     massRes (Cog10.L0.density p) (Cog10.L0.velocity p) (p.geometry - 1) r t = 0 := by
